@@ -85,8 +85,34 @@ fn check_read_outcome(ctx: &Ctx, f: &dyn Fmt, r: &ROut, truth: &[Row], what: &st
     Ok(())
 }
 
-/// Variants of a hard fault at call k: (persistent, kind index, Ok(0) instead of Err).
-const WRITE_VARIANTS: usize = 6;
+/// Variants of a fault at call k: 0-5 hard (persistent, post policy, Ok(0) instead of Err); 6 = one Interrupted; 7 = one short write.
+const WRITE_VARIANTS: usize = 8;
+
+/// A single benign misbehaviour (one Interrupted, or one short write) at sink call k: success must mean the
+/// reference bytes; a clean error is tolerated by C18 (after a short write the sink must still hold a prefix).
+fn write_benign_at(ctx: &Ctx, f: &dyn Fmt, rf: &Reference, k: usize, short: bool) -> R {
+    let name = f.name();
+    let plan = if short { Plan::short_at(k) } else { Plan::interrupted_at(k) };
+    let sink = SimSink::new(ctx, plan);
+    let w = f.write(ctx, sink.clone(), Post::IntoInner);
+    ctx.count("executions", 1);
+    let st = sink.state();
+    let fired = if short { st.short_fired > 0 } else { st.intr_fired > 0 };
+    let data = f.normalise(ctx, st.data.clone());
+    let what = if short { "short_write_at_k" } else { "interrupted_at_k" };
+    if w.api_ok {
+        if f.deterministic() && data != *rf.bytes {
+            bail_v!(ctx, "wrong_bytes", &format!("{name}.writer/{what}"), "one {} at sink call {k} (fired={fired}), every writer API call returned Ok, but the sink holds {} bytes that differ from the {}-byte reference at byte {}",
+                if short { "short write" } else { "Interrupted" }, data.len(), rf.bytes.len(), first_diff(&data, &rf.bytes));
+        }
+        if fired {
+            ctx.probe(if short { "short_write_at_k_ok" } else { "interrupted_at_k_ok" });
+        }
+    } else if short && f.deterministic() && !is_prefix(&data, &rf.bytes) {
+        bail_v!(ctx, "not_a_prefix", &format!("{name}.writer/{what}"), "after a clean error following one short write at call {k} the sink does not hold a prefix of the reference (first difference at {})", first_diff(&data, &rf.bytes));
+    }
+    Ok(())
+}
 
 pub fn write_fault_sweep(ctx: &Ctx, f: &dyn Fmt, rf: &Reference) -> R {
     let name = f.name();
@@ -95,6 +121,10 @@ pub fn write_fault_sweep(ctx: &Ctx, f: &dyn Fmt, rf: &Reference) -> R {
         ctx.set_at("w", j as u64);
         let k = j / WRITE_VARIANTS;
         let variant = j % WRITE_VARIANTS;
+        if variant >= 6 {
+            write_benign_at(ctx, f, rf, k, variant == 7)?;
+            continue;
+        }
         let persistent = variant & 1 == 1;
         let post = if variant & 2 == 2 { Post::IntoInner } else { Post::Drop };
         let mut plan = Plan::hard(k, HARD_KINDS[(k + variant) % HARD_KINDS.len()], persistent);
@@ -159,10 +189,26 @@ fn check_truncated(ctx: &Ctx, f: &dyn Fmt, r: &ROut, truth: &[Row], len: usize, 
 
 pub fn read_fault_sweep(ctx: &Ctx, f: &dyn Fmt, rf: &Reference) -> R {
     let m = rf.source_calls;
-    for j in ctx.sweep("r", m * 2) {
+    for j in ctx.sweep("r", m * 4) {
         ctx.set_at("r", j as u64);
-        let k = j / 2;
-        let persistent = j % 2 == 1;
+        let k = j / 4;
+        if j % 4 >= 2 {
+            // one Interrupted resp. one short read at source call k: the reader may retry or report an error,
+            // but finishing without an error means all rows
+            let short = j % 4 == 3;
+            let r = f.read(ctx, rf.bytes.clone(), if short { Plan::short_at(k) } else { Plan::interrupted_at(k) });
+            ctx.count("executions", 1);
+            let what = if short { "short_read_at_k" } else { "interrupted_at_k" };
+            check_read_outcome(ctx, f, &r, &rf.rows, what, false)?;
+            if r.err.is_none() {
+                if r.rows.len() != rf.rows.len() {
+                    bail_v!(ctx, "wrong_rows", &format!("{}.reader/{what}", f.name()), "one {} at source call {k}: the reader finished without an error but returned {} of {} rows", if short { "short read" } else { "Interrupted" }, r.rows.len(), rf.rows.len());
+                }
+                ctx.probe(if short { "short_read_at_k_ok" } else { "interrupted_read_at_k_ok" });
+            }
+            continue;
+        }
+        let persistent = j % 4 == 1;
         let plan = Plan::hard(k, HARD_KINDS[(k + j) % HARD_KINDS.len()], persistent);
         let r = f.read(ctx, rf.bytes.clone(), plan);
         ctx.count("executions", 1);
